@@ -880,15 +880,32 @@ class Env(object):
             only_common = True      # the quick tier digests a fixed subset of the elements
         diffs = diff_digests(d, want, only_common_entries=only_common)
         if diffs:
-            dl = set(self.canon.get('dataless_neutron', ()))
-            self.violation(kind, clause, table_label, g,
-                           '%s: %s table serves %d differing value(s) in group %s, e.g. %s.%s = %s, expected %s'
-                           % (where, table_label, len(diffs), g, diffs[0][0], diffs[0][1],
-                              short(diffs[0][2], 60), short(diffs[0][3], 60)),
-                           symptom='digest-differs', entries=diffs,
-                           all_entries_dataless=(g == 'neutron' and all(e in dl for e, _, _, _ in diffs)),
-                           all_entries_lost_own_record=(g == 'neutron' and _all_lost_own_record(diffs)))
+            self.report_diffs(kind, clause, table_label, g, diffs,
+                              '%s: %s table serves' % (where, table_label))
         return d
+
+    def report_diffs(self, kind, clause, table_label, g, diffs, lead, **extra):
+        """One record per *class of differing entries* (so that two mechanisms acting on one group in
+        one history stay two records): for the neutron group 'lost-own-record' (the atom served its own
+        record canonically and now serves something else), 'atom-without-neutron-row', 'atom-with-data';
+        for the other groups the kinds of the values now served (None / an exception / another value)."""
+        dl = set(self.canon.get('dataless_neutron', ()))
+        lost = set(e for e, f, a, b in diffs if f == 'own_record' and a is False and b is True)
+        per_entry = collections.OrderedDict()
+        for t in diffs:
+            per_entry.setdefault(t[0], []).append(t)
+        classes = collections.OrderedDict()
+        for entry, ts in per_entry.items():
+            if g == 'neutron':
+                c = 'lost-own-record' if entry in lost else ('atom-without-neutron-row' if entry in dl else 'atom-with-data')
+            else:
+                c = '+'.join(sorted(set(value_kind(a) for _, _, a, _ in ts)))
+            classes.setdefault(c, []).extend(ts)
+        for c, ts in classes.items():
+            self.violation(kind, clause, table_label, g,
+                           '%s %d differing value(s) in group %s [%s], e.g. %s.%s = %s, expected %s'
+                           % (lead, len(ts), g, c, ts[0][0], ts[0][1], short(ts[0][2], 60), short(ts[0][3], 60)),
+                           symptom='digest-differs:' + c, entries=ts, item=c, **extra)
 
     # -- events ----------------------------------------------------------
     def apply(self, name):
@@ -942,7 +959,7 @@ class Env(object):
         if v != want:
             self.violation('public-event', 'a', 'public', '+'.join(event_groups(name)) or '-',
                            'public %s = %s, canonical %s' % (name, short(v, 70), short(want, 70)),
-                           symptom=value_kind(v), entries=[(name, 'value', v, want)])
+                           symptom=value_kind(v), entries=[(name, 'value', v, want)], item='%s=%s' % (name, value_kind(v)))
 
     def _ev_pub_read(self, p, pend):
         import periodictable as pt
@@ -969,7 +986,8 @@ class Env(object):
             if v != want:
                 self.violation('private-fresh', 'b', T, g,
                                '%s read %s:%s = %s, public canonical %s' % (T, g, r, short(v, 70), short(want, 70)),
-                               symptom=value_kind(v), entries=[('read:%s:%s' % (g, r), 'value', v, want)])
+                               symptom=value_kind(v), entries=[('read:%s:%s' % (g, r), 'value', v, want)],
+                               item='read:%s:%s=%s' % (g, r, value_kind(v)))
         else:
             self.counts['private_reads_not_comparable'] += 1
             if g not in self.inited[T] and g in pend:
@@ -1019,13 +1037,8 @@ class Env(object):
             self.counts['entries_compared'] += len(d1)
             diffs = diff_digests(d1, d0)
             if diffs:
-                dl = set(self.canon.get('dataless_neutron', ()))
-                self.violation('private-cross', 'c', U, h,
-                               'mutating %s of %s changed %d value(s) served by %s, e.g. %s.%s: %s -> %s'
-                               % (g, T, len(diffs), U, diffs[0][0], diffs[0][1], short(diffs[0][3], 50),
-                                  short(diffs[0][2], 50)),
-                               symptom='digest-differs', entries=diffs, mutated_table=T,
-                               all_entries_dataless=(h == 'neutron' and all(e in dl for e, _, _, _ in diffs)))
+                self.report_diffs('private-cross', 'c', U, h, diffs,
+                                  'mutating %s of %s changed, in table %s,' % (g, T, U), mutated_table=T)
 
     def _check_formula_atoms(self, T, what, label, f=None):
         """(e): every atom of the formula is an atom of the table it was parsed with."""
@@ -1146,7 +1159,8 @@ class Env(object):
                 if v != want:
                     self.violation('public-event', 'a', 'public', g,
                                    'final public %s = %s, canonical %s' % (name, short(v, 70), short(want, 70)),
-                                   symptom=value_kind(v), entries=[(name, 'value', v, want)], final=True)
+                                   symptom=value_kind(v), entries=[(name, 'value', v, want)], final=True,
+                                   item='%s=%s' % (name, value_kind(v)))
         for g in GROUPS:
             if g not in skip:
                 self.compare_digest('public', pt.elements, g, 'public-digest', 'a/c', 'end of history')
@@ -1575,7 +1589,8 @@ def without_mutations(history, g, v):
 def signature(v):
     """What identifies 'the same violation' across executions of related histories."""
     role = v['table'] if v['table'] in ('public',) or '+' in v['table'] else 'private'
-    return (v['kind'], role, v['group'], v['symptom'] if v['kind'] in ('shared-object', 'foreign-reference') else '')
+    item = v['symptom'] if v['kind'] in ('shared-object', 'foreign-reference') else v.get('item', '')
+    return (v['kind'], role, v['group'], item)
 
 
 def kind_signature(history):
